@@ -942,6 +942,14 @@ class Interp:
             if not c2:
                 c2 = [f for f in cands if f.line is None and (f.name == c or f.name.endswith('::' + c) or
                                                               f.name.split('::')[-2:-1] == [ty])]
+            if len(c2) > 1:
+                # inherent impls for different instantiations of one generic type: impl EvalString<String> / impl EvalString<&str>
+                mm = re.match(r'^(.*)::(\w+)(?:::<.*>)?$', re.sub(r"::<'_>", '', callee), re.S)
+                if mm:
+                    want = _norm_ty(mm.group(1).replace('::<', '<'))
+                    c3 = [f for f in c2 if _norm_ty(re.sub(r'^.*?impl(<[^>]*>)?\s*', '', self.impl_info(f)[3]).strip()) == want]
+                    if len(c3) == 1:
+                        c2 = c3
             if len(c2) == 1:
                 return ('fn', c2[0])
             if len(c2) > 1:
